@@ -29,6 +29,8 @@ type cfgCase struct {
 	Bytes []int      `json:"bytes"`
 	// the same list, the first config's cipher_suites vector carrying 1..3 dangling bytes (all lengths consistent)
 	Dangling [][]int `json:"dangling"`
+	// one-config lists whose ECHConfigContents are cut to their first 0..n-1 bytes, the enclosing lengths consistent
+	Cuts [][]int `json:"cuts"`
 }
 
 func ib(x []int) []byte {
@@ -87,6 +89,11 @@ func checkCfgCase(c *cfgCase) (diff string) {
 	for k := 0; k < len(wantBytes); k++ {
 		if _, err := ech.ParseConfigList(wantBytes[:k]); err == nil {
 			return fmt.Sprintf("a truncation to %d of %d bytes is accepted", k, len(wantBytes))
+		}
+	}
+	for k, d := range c.Cuts {
+		if got, err := ech.ParseConfigList(ib(d)); err == nil {
+			return fmt.Sprintf("contents truncated to %d of %d bytes (lengths consistent) are accepted: %+v", k, len(c.Cuts), got)
 		}
 	}
 	for k, d := range c.Dangling {
